@@ -166,6 +166,40 @@ def tlist(name, xs):
     return "Definition %s : list (string * N) := [%s]." % (name, "; ".join("(%s, %d%%N)" % (coq_string(k), v) for k, v in xs))
 
 
+def predict_sites(path):
+    """(state set before the call, decision number) for every adaptivePredict call of the generated Python parser"""
+    state, sites = None, []
+    for ln in open(path, encoding="utf-8").read().split("\n"):
+        m = re.search(r"self\.state = (\d+)", ln)
+        if m:
+            state = int(m.group(1))
+        m = re.search(r"adaptivePredict\(self\._input,\s*(\d+),", ln)
+        if m:
+            if state is None:
+                raise AtnError("adaptivePredict before any self.state assignment in %s" % path)
+            sites.append((state, int(m.group(1))))
+    if not sites:
+        raise AtnError("no adaptivePredict call found in %s" % path)
+    return sites
+
+
+def decision_states(words):
+    """decision number -> (state number of the decision state, state number of its loop-back state or the same number),
+    read from the serialized ATN with the ANTLR runtime's own deserialiser"""
+    from antlr4.atn.ATNDeserializer import ATNDeserializer
+    from antlr4.atn.ATNState import StarLoopEntryState
+    atn = ATNDeserializer().deserialize("".join(chr(w) for w in words))
+    out = []
+    for s in atn.decisionToState:
+        lb = s.loopBackState.stateNumber if isinstance(s, StarLoopEntryState) and s.loopBackState is not None else s.stateNumber
+        out.append((s.stateNumber, lb))
+    return out
+
+
+def plist(name, xs):
+    return "Definition %s : list (N * N) := [%s]%%N." % (name, "; ".join("(%d, %d)" % (a, b) for a, b in xs))
+
+
 def main():
     repo, dst = sys.argv[1], sys.argv[2]
     py = os.path.join(repo, "blackbird_python", "blackbird")
@@ -200,6 +234,14 @@ def main():
         L.append(slist("parser_literals_%s" % tag, norm_names(pr["literalNames"])))
         L.append(slist("parser_symbolic_%s" % tag, norm_names(pr["symbolicNames"])))
         L.append(slist("parser_rules_%s" % tag, pr["ruleNames"]))
+    # the generated Python parser calls adaptivePredict(decision) right after setting the state of that decision
+    L.append(plist("py_predict_sites", predict_sites(os.path.join(py, "blackbirdParser.py"))))
+    try:
+        L.append(plist("atn_decision_states", decision_states(py_atn(os.path.join(py, "blackbirdParser.py")))))
+    except AtnError:
+        raise
+    except Exception as e:  # noqa: BLE001
+        raise AtnError("the parser ATN cannot be deserialised: %s" % e)
     L.append("")
     open(dst, "w").write("\n".join(L))
 
